@@ -283,6 +283,25 @@ pub fn run(ctx: &Ctx) -> (Stats, Report) {
     st.sample(2, || json!({"kind": "out_of_range", "n": c.last + 1}));
     st.section("out_of_range_days", &mut mark);
 
+    // B2: call-order histories: every day number again in descending and in scrambled order
+    // (anything a conversion leaves behind meets an earlier / unrelated date next)
+    let g = par_sweep(c.len() as u64, 1 << 12, |range, st| {
+        let (lo, len) = (range.start, range.end - range.start);
+        for pass in 0..2u64 {
+            for k in 0..len {
+                let i = if pass == 0 { range.end - 1 - k } else { lo + (k * 2731 + 17) % len };
+                st.evaluations += 1;
+                if let Err(m) = check_day(c.rows[i as usize].n) {
+                    st.fail(i, Case::new(P, "day", vec![c.rows[i as usize].n as i128], vec![]), format!("{m} [in a {} sweep: depends on earlier calls if the single call passes]", if pass == 0 { "descending" } else { "scrambled" }));
+                    return;
+                }
+            }
+        }
+    });
+    st.merge(g);
+    st.exhaustive_sections.push("every day number again in descending and in scrambled order".into());
+    st.section("call_order_histories", &mut mark);
+
     // C: the triple grid
     let ys = years_grid();
     let ms = if ctx.thorough { months_grid_wide() } else { months_grid() };
